@@ -129,11 +129,11 @@ def _audit(fn, Y, W, total, I, log, tol_first, tol):
                 return f'row {row}: prefix {row[:k]} has zero probability but was drawn'
             cond = marg / marg.sum()
             t = tol_first if k == 0 else tol
-            if np.max(np.abs(p - cond)) > t:
+            if not np.max(np.abs(p - cond)) <= t:
                 return (f'conditional of mode {k} given prefix {row[:k]}: generator received {p.tolist()}, dense '
                         f'conditional {cond.tolist()}')
             prod *= p[row[k]]
-        if abs(prod - W[tuple(row)] / total) > tol_first + d * tol:
+        if not abs(prod - W[tuple(row)] / total) <= tol_first + d * tol:
             return f'row {row}: product of conditionals {prod!r} != weight/total = {W[tuple(row)] / total!r}'
     return None
 
@@ -340,8 +340,8 @@ def _shape_bounds(fn, n, m, seed, genobj, forms):
             X = teneva.sample_rand_poi(np.array(a) if forms else a, np.array(b) if forms else b, mm, seed=sd)
             if not isinstance(X, np.ndarray) or X.shape != (m, d) or X.dtype.kind != 'f':
                 return FAIL(f'shape {getattr(X, "shape", None)} dtype {getattr(X, "dtype", None)}')
-            if np.any(X < np.array(a)) or np.any(X > np.array(b)):
-                return FAIL('point outside the box')
+            if not (np.all(X >= np.array(a)) and np.all(X <= np.array(b))):
+                return FAIL('point outside the box (or not a number)')
             if m >= 3 and any(len(np.unique(X[:, k])) < 2 for k in range(d)):
                 return FAIL('constant coordinate')
             return PASS
